@@ -161,7 +161,7 @@ func (s *State) JudgeAdmin(a Admin) AdminVerdict {
 type Env struct {
 	// deposit | reescrow | ftf_pause | ftf_unpause | blacklist | unblacklist | burn_limit |
 	// cctp_pause_burn | cctp_unpause_burn | cctp_pause_msgs | cctp_unpause_msgs | hyp_unenroll | hyp_enroll |
-	// next_block | upgrade (in-place migration from consensus version Amount) | send_disable | send_enable (bank's per-denomination send switch, Denom)
+	// exec_mode (Amount = sdk.ExecMode of the context from here on) | next_block | upgrade (in-place migration from consensus version Amount) | send_disable | send_enable (bank's per-denomination send switch, Denom)
 	// (the Hyperlane steps use Denom for the token and Amount for the domain; next_block uses Amount
 	// for the number of blocks the chain advances by)
 	Kind    string `json:"kind"`
@@ -316,6 +316,30 @@ func (m *Machine) doEnv(e Env) world.TxResult {
 		}
 		cur := m.W.App.TransferKeeper.GetTotalEscrowForDenom(m.Ctx, e.Denom)
 		m.W.App.TransferKeeper.SetTotalEscrowForDenom(m.Ctx, cur.Add(coin))
+		return world.TxResult{}
+	case "mint_to_orbiter":
+		// coins of a denomination nobody holds yet (the LAB swap output, whose PROD-side Hyperlane
+		// token exists) appear on the orbiter account: minted by the transfer module, as an
+		// incoming voucher would be, and sent there
+		coins := sdk.Coins{sdk.Coin{Denom: e.Denom, Amount: amt}}
+		if !amt.IsPositive() {
+			return world.TxResult{Err: fmt.Errorf("nothing to mint")}
+		}
+		if err := m.W.App.BankKeeper.MintCoins(m.Ctx, "transfer", coins); err != nil {
+			return world.TxResult{Err: err}
+		}
+		if err := m.W.App.BankKeeper.SendCoinsFromModuleToAccount(m.Ctx, "transfer", world.OrbiterAddr, coins); err != nil {
+			return world.TxResult{Err: err}
+		}
+		return world.TxResult{}
+	case "exec_mode":
+		// the following steps run under another execution mode of the context (0 check, 2 simulate,
+		// 3/4 proposal handling, 7 finalize, ...): the module's behaviour does not depend on it
+		mode := uint8(0)
+		if amt.IsUint64() {
+			mode = uint8(amt.Uint64() % 8)
+		}
+		m.Ctx = m.Ctx.WithExecMode(sdk.ExecMode(mode))
 		return world.TxResult{}
 	case "upgrade":
 		// an in-place upgrade: the module manager runs the migrations the module registers, from
